@@ -71,7 +71,7 @@ struct CmObj : Obj {
   std::string obs() { return obs_of(sk); }
   static std::string obs_of(const Sk& sk) {
     std::string o = "h=" + str((int)sk.get_num_hashes()) + "|b=" + str(sk.get_num_buckets()) + "|seed=" + str(sk.get_seed()) + "|W=" + str(sk.get_total_weight()) + "|empty=" + str(sk.is_empty()) + "|relerr=" + str(sk.get_relative_error()) + "|cells=";
-    for (auto it = sk.begin(); it != sk.end(); ++it) o += str(*it) + ",";
+    { size_t i = 0; uint64_t h = 1469598103934665603ULL; for (auto it = sk.begin(); it != sk.end(); ++it, ++i) { if (i < 256) o += str(*it) + ","; uint64_t v = (uint64_t)*it; h = mc::fnv1a(&v, 8, h); } o += "#" + mc::hex64(h); }   // large tables: first cells plus a hash of all
     for (int i = 0; i < 12; ++i) o += "|" + str(sk.get_lower_bound((uint64_t)i)) + "," + str(sk.get_estimate((uint64_t)i)) + "," + str(sk.get_upper_bound((uint64_t)i));
     o += "|s=" + str(sk.get_estimate(std::string("abc")));
     return o;
@@ -89,6 +89,7 @@ struct CmObj : Obj {
 inline void register_cm() {
   typedef CmObj::Sk Sk;
   Family f; f.name = "count_min"; f.preamble_bytes = 16;
+  f.alloc_legal_max = (size_t)8 << 30;   // the format itself allows 2^30 cells of 8 bytes: a 16-byte image can legally describe a table of gigabytes
   f.states = [](bool quick, const StateCb& cb) {
     const int hs[] = {1, 2, 5}; const int bs[] = {3, 8, 37};
     for (int hi = 0; hi < 3; ++hi) for (int bi = 0; bi < 3; ++bi) for (int n = 0; n <= (quick ? 12 : 40); ++n) {
